@@ -60,6 +60,7 @@ func hasProp(props []string, p string) bool {
 }
 
 type Selected struct {
+	Deferred []string // proved in the thorough tier only
 	Scripts  []*Script
 	Failures []TransFailure
 	Funcs    []string
@@ -71,6 +72,7 @@ type TransFailure struct {
 }
 
 func (vc *VC) selectScripts(prop, only string) *Selected {
+	thorough := vc.tier == "thorough"
 	sel := &Selected{}
 	var keys []string
 	for k := range vc.cs.Funcs {
@@ -94,6 +96,10 @@ func (vc *VC) selectScripts(prop, only string) *Selected {
 		if con.Trusted {
 			continue
 		}
+		if con.ThoroughOnly && !thorough {
+			sel.Deferred = append(sel.Deferred, name)
+			continue
+		}
 		sel.Funcs = append(sel.Funcs, name)
 		sc, err := vc.TranslateFunction(fn, con)
 		if err != nil {
@@ -103,6 +109,10 @@ func (vc *VC) selectScripts(prop, only string) *Selected {
 		sel.Scripts = append(sel.Scripts, sc)
 		for _, cc := range con.Cases {
 			cname := name + "#" + cc.CaseName
+			if cc.ThoroughOnly && !thorough {
+				sel.Deferred = append(sel.Deferred, cname)
+				continue
+			}
 			sel.Funcs = append(sel.Funcs, cname)
 			csc, err := vc.TranslateFunction(fn, cc)
 			if err != nil {
@@ -137,6 +147,10 @@ func (vc *VC) selectScripts(prop, only string) *Selected {
 			continue
 		}
 		if only != "" && !strings.Contains(lem.Name, only) {
+			continue
+		}
+		if lem.ThoroughOnly && !thorough {
+			sel.Deferred = append(sel.Deferred, "lemma "+lem.Name)
 			continue
 		}
 		sel.Funcs = append(sel.Funcs, "lemma "+lem.Name)
@@ -205,6 +219,7 @@ func cmdCheck(args []string) int {
 		return 2
 	}
 	loadT := time.Since(start)
+	vc.tier = *tier
 	sel := vc.selectScripts(*prop, *only)
 	to := 10000
 	if *tier == "thorough" {
@@ -214,9 +229,12 @@ func cmdCheck(args []string) int {
 		to = *timeout
 	}
 	r := &Runner{vc: vc, TimeoutMs: to, Workers: runtime.NumCPU(), Primary: "z3-new", Fallback: []string{"z3", "cvc5"},
-		Cross: *tier == "thorough", SolverMs: map[string]int64{}, Calls: map[string]int{}}
+		Cross: *tier == "thorough", Tier: *tier, SolverMs: map[string]int64{}, Calls: map[string]int{}}
 	results := r.Run(sel.Scripts)
 	rep := &Report{VC: vc, Prop: *prop, Tier: *tier, Verif: *verif, Sel: sel, Results: results, Runner: r, Start: start, LoadT: loadT, Verbose: *verbose, NoEvidence: *noEvidence || *only != ""}
+	if *only == "" {
+		rep.Extra = vc.ExtraFor(*prop, results)
+	}
 	return rep.Finish()
 }
 
@@ -281,6 +299,33 @@ func init() {
 			tr := sc.renderInstance(&sb, 0, inst, nil, nil, false, false)
 			fmt.Println(sb.String())
 			fmt.Println("; trivial", tr, "of", len(sc.obligations()))
+		}
+		os.Exit(0)
+	}
+}
+
+func init() {
+	if os.Getenv("GOVC_FRAME_DEBUG") != "" {
+		vc, err := LoadProgram("/repo")
+		if err != nil {
+			fmt.Println(err)
+			os.Exit(2)
+		}
+		vc.cs, _ = LoadContracts("/repo")
+		fr := vc.FrameCheck()
+		fmt.Println("functions", fr.Functions, "sites", len(fr.Sites), "violations", len(fr.Violations))
+		for _, v := range fr.Violations {
+			fmt.Println("  F-VIOL", v.fn.String(), vc.position(v.pos), v.what, v.origin)
+		}
+		n, gv := vc.GlobalWriteScan([]string{"github.com/trajectoryjp/multidimensional-radix-tree", "github.com/trajectoryjp/closest_go", "github.com/trajectoryjp/geodesy_go", "github.com/wroge/wgs84", "github.com/go-gl/mathgl", "gonum.org/v1/gonum/spatial/r3"})
+		fmt.Println("dep store sites", n, "global writes", len(gv))
+		for _, g := range gv {
+			fmt.Println("  G-VIOL", g)
+		}
+		src, sinks, uf := vc.OrderCheck()
+		fmt.Println("unordered values", src, "unordered functions", uf)
+		for _, s := range sinks {
+			fmt.Println("  D-SINK", s.fn.String(), vc.position(s.pos), s.desc)
 		}
 		os.Exit(0)
 	}
